@@ -1,6 +1,7 @@
 """C09 - the Kalman step equals the textbook filter per feature over any track history."""
 import ast
 import json
+import os
 from concurrent.futures import ThreadPoolExecutor
 from fractions import Fraction as Fr
 
@@ -9,28 +10,38 @@ import numpy as np
 ID = "C09"
 PROPS_FILE = "theories/Props/C09.v"
 EXTRACT = ("theories/Extract/XC09.v", "c09",
-           ["entry_run", "entry_spec_run", "entry_abs_run", "entry_models", "entry_alg"])
+           ["entry_run", "entry_spec_run", "entry_abs_run", "entry_run_abs", "entry_models", "entry_alg"])
 PYX = {}
 CASE_TIMEOUT = 60
 TOL = 1e-9
-RULE = ("random track histories of 2-8 frames (quick: 120, thorough: 1000) on the velocity, reverse-velocity "
-        "and static models, 0-7 features per frame (thorough: 0-10); every frame draws a keep/permute/drop/add "
-        "pattern (classes: random, empty frame, all-new, all-dropped+new, identity, reversal, rotation, single "
-        "survivor); coordinates, q and r are dyadic (multiples of 1/4 or 1/64; q = B B^T/d + I with small integer B, "
-        "so SPD with condition number < 10^3 - counted as excluded otherwise), a few short histories use arbitrary "
-        "doubles; plus direct cases for dot_n (three broadcast forms), inv_n/det_n/cofactor_n (sizes 1-4, "
-        "|det| >= 1/8), parity and permutations (all permutations of <= 5 elements).  The whole history is replayed "
-        "through the batched Gallina model (all five state arrays after every frame) and through the per-feature "
-        "specification; integers (state_noise_idx, shapes) and copied values (new-feature initialisation, carried "
-        "history rows) are compared exactly, computed rationals against floats at |impl - model| <= 1e-9 * "
-        "max(1, max|model array|).  non-trivial = some frame keeps >= 2 features in non-identity order or with a "
-        "drop, after >= 1 earlier update (history renumbering exercised); distinct by hash of the case")
+RULE = ("random track histories of 2-16 frames (quick: 110, thorough: 700) on the velocity, reverse-velocity and static "
+        "models and on custom KalmanState(om, tm) objects (1-D constant velocity obs_len 1, 3-D static obs_len 3, a "
+        "scaled/partly hidden model, float-matrix velocity), 0-7 features per frame (thorough 0-12); every frame draws a "
+        "pattern (random keep/permute/drop/add, empty, all-new, identity, reversal, rotation, single survivor, drop only "
+        "trailing / leading / middle, drop-and-re-add in place); 60 % of the histories vary the argument forms per call "
+        "(old_indices int8..int64/intp/uint8..64/list/tuple/strided/read-only, coordinates float64/32/16/int64/Fortran/"
+        "strided/read-only, q and r float64/32/int64/Fortran/strided/read-only/np.broadcast_to; exact conversions only); a "
+        "fifth run as `multi` cases (2-4 independent states interleaved in one process, forks continuing from a shared "
+        "state object; every other live state byte-compared around each call); large frames (quick 12x40 and 3x300 "
+        "features, thorough up to 32x300 and 40x160); data dyadic (multiples of 1/4, 1/64 or integers; q = B B^T/d + I so "
+        "SPD with condition number < 10^3 - counted as excluded otherwise), 5 % short histories of arbitrary doubles; a "
+        "track restarts in place as a new feature after 6-9 frames (counted +age_capped: exact rationals of an old track and "
+        "of the variance over its history grow to thousands of bits); plus direct cases for dot_n (three broadcast forms), "
+        "inv_n/det_n/cofactor_n (sizes 1-4, |det| >= 1/8), parity and permutations (all permutations of <= 5 elements). "
+        "Each history is replayed once through the batched Gallina model, whose per-feature abstraction is the "
+        "specification (theorem C09_fresh_refines_trace; re-checked against the separately extracted specification on "
+        "every 8th history); integers (state_noise_idx, shapes, dtypes) and copied values (new-feature initialisation, "
+        "carried history rows) are compared exactly, computed rationals against floats at |impl - model| <= 1e-9 * "
+        "max(1, max|model array|).  non-trivial = some frame keeps >= 2 features in non-identity order or with a drop, "
+        "after >= 1 earlier update (history renumbering exercised); distinct by hash of the case")
 TRUSTED = ["modelled, not verified: IEEE rounding of the float implementation (model is exact over Q; compared at "
            "relative tolerance 1e-9 on well-conditioned inputs)",
            "modelled, not verified: NumPy fancy indexing / boolean masks / vstack, scipy.ndimage.variance "
            "(population variance per label) as transcribed",
-           "parity() is modelled by inversion counting, permutations() by structural lexicographic enumeration; both "
-           "tied to the code by exact comparison on every permutation of up to 5 elements",
+           "parity() is modelled by inversion counting (proved: the sign; equal to the cycle-counting algorithm as written "
+           "for n <= 5), permutations() by structural lexicographic enumeration; both tied to the code by exact comparison "
+           "on every permutation of up to 5 elements",
+           "the executable model uses shortcut operations for operands 0 and 1 (proved equal to the Qc field operations)",
            "translator harness/props/c09.py:gen_files (ast walk of filter.py for LARGE/SMALL_KALMAN_COV and the "
            "three motion models' matrices)"]
 ASSUMPTIONS = ["old_indices entries are -1 or valid, pairwise distinct indices into the previous frame's features",
@@ -141,6 +152,26 @@ def gen_files(ctx):
 
 # ------------------------------------------------------------------------------- generator
 
+CUSTOM = {
+    # 1-D position + velocity: obs_len 1 (inv_n of 1x1)
+    "cv1d": ([[1, 0]], [[1, 1], [0, 1]], True),
+    # 3-D static: obs_len 3 (inv_n of 3x3: 2x2 cofactors)
+    "static3d": ([[1.0, 0, 0], [0, 1.0, 0], [0, 0, 1.0]], [[1.0, 0, 0], [0, 1.0, 0], [0, 0, 1.0]], False),
+    # non-0/1 entries, a hidden third state: SMALL/2, SMALL, LARGE initial variances
+    "scaled": ([[2.0, 0, 0], [0, 1.0, 0]], [[1.0, 0, 0.5], [0, 1.0, 0], [0, 0, 1.0]], False),
+    # the velocity model built by the caller from float matrices
+    "velocity_float": ([[1.0, 0, 0, 0], [0, 1.0, 0, 0]],
+                       [[1.0, 0, 1.0, 0], [0, 1.0, 0, 1.0], [0, 0, 1.0, 0], [0, 0, 0, 1.0]], False),
+}
+
+
+def _case_mats(case):
+    """(om, tm) as nested lists of numbers"""
+    if case["model"] == "custom":
+        return case["om"], case["tm"]
+    return DOC[case["model"]]
+
+
 def _spd(rng, n, den):
     """B B^T / den + I with small integer B: dyadic, SPD, modest condition number"""
     b = rng.randint(-3, 4, size=(n, n)).astype(float)
@@ -150,19 +181,30 @@ def _spd(rng, n, den):
 def _pattern(rng, nold, maxf):
     """one frame's old_indices"""
     u = rng.rand()
-    if u < 0.07:
+    if u < 0.06:
         return [], "empty"
-    if u < 0.14 or nold == 0:
+    if u < 0.12 or nold == 0:
         return [-1] * int(rng.randint(1, maxf + 1)), "all_new"
-    if u < 0.20:
+    if u < 0.17:
         return list(range(nold)), "identity"
-    if u < 0.26:
+    if u < 0.22:
         return list(range(nold))[::-1], "reversal"
-    if u < 0.32:
+    if u < 0.27:
         k = int(rng.randint(0, nold))
         return list(range(k, nold)) + list(range(k)), "rotation"
-    if u < 0.37:
+    if u < 0.31:
         return [int(rng.randint(nold))], "single_survivor"
+    if u < 0.36:
+        return list(range(nold - int(rng.randint(1, nold + 1)))) or [-1], "drop_trailing"
+    if u < 0.41:
+        return list(range(int(rng.randint(1, nold + 1)), nold)) or [-1], "drop_leading"
+    if u < 0.46 and nold >= 3:
+        a = int(rng.randint(1, nold - 1))
+        b = int(rng.randint(a + 1, nold))
+        return list(range(a)) + list(range(b, nold)), "drop_middle"
+    if u < 0.52:
+        # drop some and re-add the same number of new features in their slots
+        return [(-1 if rng.rand() < 0.4 else i) for i in range(nold)], "drop_and_readd"
     kept = [i for i in range(nold) if rng.rand() < 0.75]
     rng.shuffle(kept)
     nnew = int(rng.choice([0, 0, 1, 1, 2, 3]))
@@ -174,33 +216,152 @@ def _pattern(rng, nold, maxf):
     return slots, "random"
 
 
-def _history(rng, maxf, nframes, den, model, floats=False):
-    sl = 2 if model == "static" else 4
+OLD_VARIANTS = ["i64", "i32", "i16", "i8", "u8", "u32", "u64", "intp", "list", "tuple", "strided", "ro"]
+CO_VARIANTS = ["f64", "f32", "f16", "int", "fort", "strided", "ro"]
+Q_VARIANTS = ["f64", "f32", "fort", "strided", "ro", "bcast", "int"]
+
+
+def _exact_in(vals, dt):
+    a = np.array(vals, float)
+    with np.errstate(all="ignore"):
+        return bool(np.array_equal(a.astype(dt).astype(float), a))
+
+
+def _variant(rng, old, coords, q, r):
+    """argument dtypes / layouts for one call; only conversions that keep every value exact"""
+    v = {}
+    o = str(rng.choice(OLD_VARIANTS))
+    if o in ("u8", "u32", "u64") and any(x < 0 for x in old):
+        o = "i32"
+    if o in ("i8", "u8") and old and max(old) > 100:
+        o = "i16"
+    v["old"] = o
+    c = str(rng.choice(CO_VARIANTS))
+    if (c == "f32" and not _exact_in(coords, np.float32)) or (c == "f16" and not _exact_in(coords, np.float16)) \
+            or (c == "int" and not _exact_in(coords, np.int64)):
+        c = "f64"
+    v["co"] = c
+    for name, m in (("q", q), ("r", r)):
+        t = str(rng.choice(Q_VARIANTS))
+        if (t == "f32" and not _exact_in(m, np.float32)) or (t == "int" and not _exact_in(m, np.int64)):
+            t = "f64"
+        if t == "bcast" and any(x != m[0] for x in m):
+            t = "fort"
+        v[name] = t
+    return v
+
+
+def _history(rng, maxf, nframes, den, model, floats=False, custom=None, variants=False, survive=None, same_q=False,
+             age_cap=None):
+    if custom:
+        om, tm, int_mats = CUSTOM[custom]
+    else:
+        om, tm = DOC[model]
+    ol, sl = len(om), len(om[0])
     frames = []
     nold = 0
+    ages = []
     for _ in range(nframes):
-        old, kind = _pattern(rng, nold, maxf)
+        if survive is not None:
+            # large frames: most tracks are short-lived, a few insertions, order shuffled in blocks
+            kept = [i for i in range(nold) if rng.rand() < survive]
+            if rng.rand() < 0.5:
+                rng.shuffle(kept)
+            nnew = max(0, maxf - len(kept) - int(rng.randint(0, max(2, maxf // 8))))
+            slots = [int(x) for x in kept] + [-1] * nnew
+            if rng.rand() < 0.5:
+                rng.shuffle(slots)
+            old, kind = slots, "large"
+        else:
+            old, kind = _pattern(rng, nold, maxf)
+        # exact rationals: a track's numbers grow with its age; old tracks restart as new features in place
+        cap = age_cap if age_cap is not None else (6 if (sl >= 4 and den > 4) else 7 if sl >= 4 else 9)
+        capped = [(-1 if (o >= 0 and ages[o] >= cap) else o) for o in old]
+        if capped != old:
+            old, kind = capped, kind + "+age_capped"
+        ages = [(ages[o] + 1 if o >= 0 else 0) for o in old]
         n = len(old)
         if floats:
-            coords = (rng.randn(n, 2) * 10).tolist()
+            coords = (rng.randn(n, ol) * 10).tolist()
             q = [(_spd(rng, sl, 1) + 0.01 * np.diag(rng.rand(sl))).tolist() for _ in range(n)]
-            r = [(_spd(rng, 2, 1) + 0.01 * np.diag(rng.rand(2))).tolist() for _ in range(n)]
+            r = [(_spd(rng, ol, 1) + 0.01 * np.diag(rng.rand(ol))).tolist() for _ in range(n)]
         else:
-            coords = (rng.randint(-40 * den, 40 * den + 1, size=(n, 2)) / float(den)).tolist()
-            q = [_spd(rng, sl, den).tolist() for _ in range(n)]
-            r = [_spd(rng, 2, den).tolist() for _ in range(n)]
-        frames.append({"old": old, "coords": coords, "q": q, "r": r, "kind": kind})
+            coords = (rng.randint(-40 * den, 40 * den + 1, size=(n, ol)) / float(den)).tolist()
+            if same_q or rng.rand() < 0.15:
+                q0, r0 = _spd(rng, sl, den).tolist(), _spd(rng, ol, den).tolist()
+                q, r = [q0] * n, [r0] * n
+            else:
+                q = [_spd(rng, sl, den).tolist() for _ in range(n)]
+                r = [_spd(rng, ol, den).tolist() for _ in range(n)]
+        f = {"old": old, "coords": coords, "q": q, "r": r, "kind": kind}
+        if variants:
+            f["variant"] = _variant(rng, old, coords, q, r)
+        frames.append(f)
         nold = n
-    return {"fn": "kalman", "model": model, "frames": frames}
+    c = {"fn": "kalman", "model": model, "frames": frames}
+    if custom:
+        c.update({"model": "custom", "custom": custom, "om": om, "tm": tm, "int_mats": int_mats})
+    return c
 
 
 def _cond_ok(case):
     for f in case["frames"]:
+        seen = []
         for m in f["q"] + f["r"]:
+            if any(m is s for s in seen):
+                continue
+            seen.append(m)
             a = np.array(m, float)
             if not np.allclose(a, a.T) or np.linalg.cond(a) > 1e3 or np.min(np.linalg.eigvalsh(a)) <= 0:
                 return False
     return True
+
+
+def _multi(rng, subs, nforks):
+    """several independent KalmanStates advanced in an interleaved order inside one process; a fork continues
+    from the very state object another history reached (which must stay untouched by both)"""
+    subs = list(subs)
+    forks = {}
+    for _ in range(nforks):
+        p = int(rng.randint(len(subs)))
+        if str(p) in forks or len(subs[p]["frames"]) < 2:
+            continue
+        t = int(rng.randint(1, len(subs[p]["frames"])))          # share frames[:t] with the parent
+        nold = len(subs[p]["frames"][t - 1]["old"])
+        tail = []
+        for _k in range(int(rng.randint(1, 4))):
+            old, kind = _pattern(rng, nold, 5)
+            n = len(old)
+            g = _frame_like(rng, subs[p], old, kind)
+            tail.append(g)
+            nold = n
+        child = dict(subs[p])
+        child["frames"] = subs[p]["frames"][:t] + tail
+        forks[str(len(subs))] = [p, t]
+        subs.append(child)
+    # a random interleaving that respects each history's order and the fork points
+    done = [0] * len(subs)
+    for j, (p, t) in forks.items():
+        done[int(j)] = t
+    schedule = []
+    while True:
+        ready = [j for j in range(len(subs)) if done[j] < len(subs[j]["frames"])
+                 and (str(j) not in forks or done[forks[str(j)][0]] >= forks[str(j)][1])]
+        if not ready:
+            break
+        j = int(ready[int(rng.randint(len(ready)))])
+        schedule.append(j)
+        done[j] += 1
+    return {"fn": "multi", "subs": subs, "forks": forks, "schedule": schedule}
+
+
+def _frame_like(rng, case, old, kind):
+    om, _tm = _case_mats(case)
+    ol, sl = len(om), len(om[0])
+    n = len(old)
+    return {"old": old, "coords": (rng.randint(-160, 161, size=(n, ol)) / 4.0).tolist(),
+            "q": [_spd(rng, sl, 4).tolist() for _ in range(n)], "r": [_spd(rng, ol, 4).tolist() for _ in range(n)],
+            "kind": kind}
 
 
 def _alg_cases(rng, k):
@@ -256,6 +417,8 @@ def _corpus():
         [[-1], [0], [0], [0], [-1, 0], [1, 0]],                        # long own history, then overtaken index
         [[-1, -1, -1], [-1, -1], [1, 0, -1]],                          # all dropped and all new in one frame
         [[], [-1, -1], [1], [0, -1], [1, 0]],
+        [[-1, -1, -1, -1], [0, 1], [0, 1, -1, -1], [2, 3], [1, 0]],    # trailing dropped, re-added, leading dropped
+        [[-1, -1, -1, -1, -1], [0, 4], [0, -1, -1, -1, 1], [4, 2, 0]],  # middle dropped, re-added in the middle
     ]
     cases = []
     for k, h in enumerate(hs):
@@ -269,32 +432,72 @@ def _corpus():
     return cases
 
 
+def _count(ctx, c):
+    if c["fn"] == "kalman":
+        ctx.count("kalman_" + (c.get("custom") or c["model"]))
+        for f in c["frames"]:
+            ctx.count("frame_" + f["kind"])
+            if "variant" in f:
+                for k, v in f["variant"].items():
+                    ctx.count("arg_%s_%s" % (k, v))
+        ctx.count("frames_total", len(c["frames"]))
+        ctx.count("max_features_%s" % ("<10" if max([len(f["old"]) for f in c["frames"]] + [0]) < 10 else
+                                       "<100" if max(len(f["old"]) for f in c["frames"]) < 100 else ">=100"))
+    elif c["fn"] == "multi":
+        ctx.count("multi")
+        ctx.count("multi_forks", len(c["forks"]))
+        for s in c["subs"]:
+            _count(ctx, s)
+    else:
+        ctx.count("alg_op%d" % c["op"])
+
+
 def generate(ctx):
     rng = ctx.rng
     cases = _corpus() + _perm_cases() + _alg_cases(rng, ctx.n(25, 150))
-    nh = ctx.n(120, 1000)
-    maxf_hi = ctx.n(7, 10)
-    made = 0
-    while made < nh:
+    nh = ctx.n(110, 700)
+    maxf_hi = ctx.n(7, 12)
+    hist = []
+    while len(hist) < nh:
+        u = rng.rand()
+        custom = None
         model = MODELS[int(rng.randint(3))]
-        floats = rng.rand() < 0.06
+        if u < 0.22:
+            custom = sorted(CUSTOM)[int(rng.randint(len(CUSTOM)))]
+        floats = rng.rand() < 0.05
         if floats:
-            c = _history(rng, 3, int(rng.randint(2, 4)), 1, model, floats=True)
+            c = _history(rng, 3, int(rng.randint(2, 4)), 1, model, floats=True, custom=custom,
+                         variants=rng.rand() < 0.5)
         else:
             maxf = int(rng.choice([1, 2, 3, 4, 5, maxf_hi]))
-            c = _history(rng, maxf, int(rng.randint(2, 9)), int(rng.choice([4, 4, 64])), model)
+            nfr = int(rng.randint(2, 9)) if rng.rand() < 0.9 else int(rng.randint(9, ctx.n(13, 17)))
+            c = _history(rng, maxf, nfr, int(rng.choice([4, 4, 64])), model, custom=custom,
+                         variants=rng.rand() < 0.6)
         if not _cond_ok(c):
             ctx.count("excluded_ill_conditioned")
             continue
-        made += 1
+        hist.append(c)
+    # a fifth of the histories run interleaved in one process, some continuing from a shared state object
+    nm = len(hist) // 5
+    pool, singles = hist[:nm], hist[nm:]
+    k = 0
+    while k < len(pool):
+        g = int(rng.randint(2, 5))
+        cases.append(_multi(rng, pool[k:k + g], int(rng.randint(0, 3))))
+        k += g
+    cases.extend(singles)
+    # large frames / long histories (exact rationals: most tracks short-lived, integer q and r)
+    big = [(40, 12, "static", 0.55), (300, 3, "static", 0.9)] if ctx.quick() else \
+          [(300, 32, "static", 0.5), (160, 40, "static", 0.6), (120, 30, "velocity", 0.45), (200, 30, "reverse_velocity", 0.35)]
+    for maxf, nfr, model, surv in big:
+        while True:
+            c = _history(rng, maxf, nfr, 1, model, variants=True, survive=surv, same_q=rng.rand() < 0.3)
+            if _cond_ok(c):
+                break
+            ctx.count("excluded_ill_conditioned")
         cases.append(c)
     for c in cases:
-        if c["fn"] == "kalman":
-            ctx.count("kalman_" + c["model"])
-            for f in c["frames"]:
-                ctx.count("frame_" + f["kind"])
-        else:
-            ctx.count("alg_op%d" % c["op"])
+        _count(ctx, c)
     return cases
 
 
@@ -307,60 +510,158 @@ def _snap(ks):
                       "state_noise", "state_noise_idx")] + [repr(sorted(vars(ks).keys())).encode()]
 
 
+def _strided(a):
+    b = np.zeros((a.shape[0] * 2,) + a.shape[1:], a.dtype)
+    b[::2] = a
+    return b[::2]
+
+
+def _ro(a):
+    a = a.copy()
+    a.setflags(write=False)
+    return a
+
+
+def _conv_old(name, old):
+    if name == "list":
+        return list(old)
+    if name == "tuple":
+        return tuple(old)
+    dt = {"i64": np.int64, "i32": np.int32, "i16": np.int16, "i8": np.int8, "u8": np.uint8, "u32": np.uint32,
+          "u64": np.uint64, "intp": np.intp, "strided": np.int64, "ro": np.int64}[name]
+    a = np.array(old, dt)
+    if a.tolist() != list(old):
+        raise AssertionError("harness: old_indices not representable in " + name)
+    return _strided(a) if name == "strided" else _ro(a) if name == "ro" else a
+
+
+def _conv_arr(name, a):
+    """a: float64 C-contiguous array"""
+    if name in ("f32", "f16", "int"):
+        b = a.astype({"f32": np.float32, "f16": np.float16, "int": np.int64}[name])
+        if not np.array_equal(b.astype(float), a):
+            raise AssertionError("harness: values not representable in " + name)
+        return b
+    if name == "fort":
+        return np.asfortranarray(a)
+    if name == "strided":
+        return _strided(a)
+    if name == "ro":
+        return _ro(a)
+    if name == "bcast":
+        if len(a) == 0:
+            return a
+        if not all(np.array_equal(a[0], x) for x in a):
+            raise AssertionError("harness: bcast needs equal matrices")
+        return np.broadcast_to(a[0].copy(), a.shape)
+    return a
+
+
+def _arg_bytes(x):
+    return repr(x).encode() if isinstance(x, (list, tuple)) else np.asarray(x).tobytes() + str(np.asarray(x).dtype).encode()
+
+
+def _mk_state(F, case):
+    if case["model"] == "custom":
+        dt = int if case.get("int_mats") else float
+        return F.KalmanState(np.array(case["om"], dt), np.array(case["tm"], dt))
+    return getattr(F, case["model"] + "_kalman_model")()
+
+
+def _call(F, ks, f, watch):
+    """one kalman_filter call; watch = other live states that must not change"""
+    ol, sl = ks.obs_len, ks.state_len
+    n = len(f["old"])
+    v = f.get("variant", {})
+    old = _conv_old(v.get("old", "i64"), f["old"])
+    coords = _conv_arr(v.get("co", "f64"), np.array(f["coords"], float).reshape(n, ol))
+    q = _conv_arr(v.get("q", "f64"), np.array(f["q"], float).reshape(n, sl, sl))
+    r = _conv_arr(v.get("r", "f64"), np.array(f["r"], float).reshape(n, ol, ol))
+    before = _snap(ks)
+    others = [_snap(w) for w in watch]
+    args_before = [_arg_bytes(x) for x in (old, coords, q, r)]
+    ks2 = F.kalman_filter(ks, old, coords, q, r)
+    unmodified = before == _snap(ks) and args_before == [_arg_bytes(x) for x in (old, coords, q, r)]
+    leak = others != [_snap(w) for w in watch]
+    rec = {
+        "svec": np.asarray(ks2.state_vec).tolist(), "scov": np.asarray(ks2.state_cov).tolist(),
+        "nvar": np.asarray(ks2.noise_var).tolist(), "snoise": np.asarray(ks2.state_noise).tolist(),
+        "sidx": [int(x) for x in np.asarray(ks2.state_noise_idx).tolist()],
+        "shapes": [list(np.asarray(getattr(ks2, a)).shape) for a in
+                   ("state_vec", "state_cov", "noise_var", "state_noise", "state_noise_idx")],
+        "dtypes": [str(np.asarray(getattr(ks2, a)).dtype) for a in ("state_vec", "state_cov", "noise_var", "state_noise")],
+        "same_object": ks2 is ks, "unmodified": bool(unmodified), "other_state_changed": bool(leak),
+        "om_tm_kept": bool(np.array_equal(ks2.observation_matrix, ks.observation_matrix)
+                           and np.array_equal(ks2.translation_matrix, ks.translation_matrix))}
+    return ks2, rec
+
+
+def _impl_alg(F, case):
+    op = case["op"]
+    a = np.array(case["a"], float)
+    b = np.array(case["b"], float)
+    if op == 0:
+        if b.ndim != 3:
+            b = b.reshape((0, a.shape[1], 1))
+        return {"v": F.dot_n(a, b).tolist()}
+    if op == 1:
+        if a.ndim != 3:
+            a = a.reshape((0, 1, b.shape[0]))
+        return {"v": F.dot_n(a, b).tolist()}
+    if op == 2:
+        if a.ndim != 3:
+            return {"v": []}
+        return {"v": F.dot_n(a, b).tolist()}
+    if op == 3:
+        return {"v": F.inv_n(a).tolist()}
+    if op == 4:
+        return {"v": np.asarray(F.det_n(a)).tolist()}
+    if op == 5:
+        return {"v": int(F.parity(np.array(case["a"], int)))}
+    if op == 6:
+        return {"v": [[int(x) for x in p] for p in F.permutations(case["a"])]}
+    if op == 7:
+        return {"v": np.asarray(F.cofactor_n(a, case["b"][0], case["b"][1])).tolist()}
+    raise ValueError("op")
+
+
+def _head(ks):
+    return {"om": np.asarray(ks.observation_matrix).tolist(), "tm": np.asarray(ks.translation_matrix).tolist(),
+            "frames": []}
+
+
 def impl(case):
     from centrosome import filter as F
     if case["fn"] == "alg":
-        op = case["op"]
-        a = np.array(case["a"], float)
-        b = np.array(case["b"], float)
-        if op == 0:
-            if b.ndim != 3:
-                b = b.reshape((0, a.shape[1], 1))
-            return {"v": F.dot_n(a, b).tolist()}
-        if op == 1:
-            if a.ndim != 3:
-                a = a.reshape((0, 1, b.shape[0]))
-            return {"v": F.dot_n(a, b).tolist()}
-        if op == 2:
-            if a.ndim != 3:
-                return {"v": []}
-            return {"v": F.dot_n(a, b).tolist()}
-        if op == 3:
-            return {"v": F.inv_n(a).tolist()}
-        if op == 4:
-            return {"v": np.asarray(F.det_n(a)).tolist()}
-        if op == 5:
-            return {"v": int(F.parity(np.array(case["a"], int)))}
-        if op == 6:
-            return {"v": [[int(x) for x in p] for p in F.permutations(case["a"])]}
-        if op == 7:
-            return {"v": np.asarray(F.cofactor_n(a, case["b"][0], case["b"][1])).tolist()}
-        raise ValueError("op")
-    ks = getattr(F, case["model"] + "_kalman_model")()
-    res = {"om": np.asarray(ks.observation_matrix).tolist(), "tm": np.asarray(ks.translation_matrix).tolist(),
-           "consts": [F.SMALL_KALMAN_COV, F.LARGE_KALMAN_COV], "frames": []}
-    sl = ks.state_len
-    for f in case["frames"]:
-        n = len(f["old"])
-        old = np.array(f["old"], int)
-        coords = np.array(f["coords"], float).reshape(n, ks.obs_len)
-        q = np.array(f["q"], float).reshape(n, sl, sl)
-        r = np.array(f["r"], float).reshape(n, ks.obs_len, ks.obs_len)
-        before = _snap(ks)
-        args_before = [old.tobytes(), coords.tobytes(), q.tobytes(), r.tobytes()]
-        ks2 = F.kalman_filter(ks, old, coords, q, r)
-        unmodified = before == _snap(ks) and args_before == [old.tobytes(), coords.tobytes(), q.tobytes(), r.tobytes()]
-        res["frames"].append({
-            "svec": np.asarray(ks2.state_vec).tolist(), "scov": np.asarray(ks2.state_cov).tolist(),
-            "nvar": np.asarray(ks2.noise_var).tolist(), "snoise": np.asarray(ks2.state_noise).tolist(),
-            "sidx": [int(x) for x in np.asarray(ks2.state_noise_idx).tolist()],
-            "shapes": [list(np.asarray(getattr(ks2, a)).shape) for a in
-                       ("state_vec", "state_cov", "noise_var", "state_noise", "state_noise_idx")],
-            "same_object": ks2 is ks, "unmodified": bool(unmodified),
-            "om_tm_kept": bool(np.array_equal(ks2.observation_matrix, ks.observation_matrix)
-                               and np.array_equal(ks2.translation_matrix, ks.translation_matrix))})
-        ks = ks2
-    return res
+        return _impl_alg(F, case)
+    if case["fn"] == "kalman":
+        ks = _mk_state(F, case)
+        res = _head(ks)
+        for f in case["frames"]:
+            ks, rec = _call(F, ks, f, [])
+            res["frames"].append(rec)
+        return res
+    # multi: interleaved independent states, forks continue from a shared state object
+    subs, forks = case["subs"], case["forks"]
+    states = [[_mk_state(F, s)] for s in subs]          # states[j][t] = state of history j after t frames
+    res = [_head(states[j][0]) for j in range(len(subs))]
+    for j, (p, t) in forks.items():
+        states[int(j)] = [None] * t + [None]
+    for j in case["schedule"]:
+        if str(j) in forks and states[j][-1] is None:
+            p, t = forks[str(j)]
+            states[j] = list(states[p][:t + 1])          # the parent's very objects
+            res[j]["frames"] = [dict(x) for x in res[p]["frames"][:t]]
+        t = len(states[j]) - 1
+        watch = [s for k, st in enumerate(states) for s in st if s is not None and s is not states[j][-1]]
+        seen, uniq = set(), []
+        for s in watch:
+            if id(s) not in seen:
+                seen.add(id(s)); uniq.append(s)
+        ks2, rec = _call(F, states[j][-1], subs[j]["frames"][t], uniq)
+        states[j].append(ks2)
+        res[j]["frames"].append(rec)
+    return {"subs": res}
 
 
 # ------------------------------------------------------------------------------- wire helpers
@@ -391,18 +692,61 @@ def _bad(o):
     return (not isinstance(o, dict)) or "exc" in o or "crash" in o
 
 
-def _par(ctx, entry, args, workers=4):
-    """ctx.run_model in a few parallel chunks (the rational arithmetic of the extracted program is slow)"""
-    if len(args) <= 8:
+def _cost(arg):
+    """rough cost of replaying a history: the rationals of a track grow linearly with its age, and the variance
+    over its own history sums fractions with unrelated denominators"""
+    sl = len(arg[1])
+    ages, cost = [], 1
+    for f in arg[2]:
+        ages = [(ages[o] + 1 if 0 <= o < len(ages) else 0) for o in f[0]]
+        cost += sum((a + 1) ** 4 for a in ages) * sl ** 3
+    return cost
+
+
+def _par(ctx, entry, args, workers=None):
+    """ctx.run_model in parallel chunks, longest-processing-time-first (the rational arithmetic of the
+    extracted program is slow)"""
+    if workers is None:
+        workers = max(4, min(12, (os.cpu_count() or 8) - 2))
+    if len(args) <= 4:
         return ctx.run_model(entry, args)
     ctx.run_model(entry, args[:1])          # builds the executable once, outside the pool
-    chunks = [list(range(k, len(args), workers)) for k in range(workers)]
+    order = sorted(range(len(args)), key=lambda k: -_cost(args[k]))
+    chunks = [[] for _ in range(workers)]
+    load = [0] * workers
+    for k in order:
+        w = load.index(min(load))
+        chunks[w].append(k)
+        load[w] += _cost(args[k])
+    chunks = [c for c in chunks if c]
     res = [None] * len(args)
-    with ThreadPoolExecutor(workers) as ex:
+    with ThreadPoolExecutor(len(chunks)) as ex:
         for ch, rs in zip(chunks, ex.map(lambda ch: ctx.run_model(entry, [args[k] for k in ch]), chunks)):
             for k, r in zip(ch, rs):
                 res[k] = r
     return res
+
+
+_run_cache = {}
+
+
+def _run_abs(ctx, args):
+    """entry_run_abs on [H, A, frames] arguments, memoised for the life of the process: the batched model's
+    states and (by C09_fresh_refines_trace) the per-feature specification come out of one evaluation"""
+    keys = [json.dumps(a, separators=(",", ":")) for a in args]
+    todo = {}
+    for k, a in zip(keys, args):
+        if k not in _run_cache and k not in todo:
+            todo[k] = a
+    if todo:
+        ks = list(todo)
+        for k, r in zip(ks, _par(ctx, "entry_run_abs", [todo[k] for k in ks])):
+            _run_cache[k] = r
+        if len(_run_cache) > 6000:
+            for k in list(_run_cache)[:len(_run_cache) - 6000]:
+                if k not in keys:
+                    del _run_cache[k]
+    return [_run_cache[k] for k in keys]
 
 
 _models_cache = {}
@@ -473,14 +817,44 @@ def _cmp_arr(x, m):
 
 # ------------------------------------------------------------------------------- model, compare
 
+def _mats_sx(ctx, case, doc):
+    if case["model"] == "custom":
+        return _qm(case["om"]), _qm(case["tm"])
+    if doc:
+        return _doc_mats(case["model"])
+    return _model_mats(ctx)[case["model"]]
+
+
+def _flatten(cases, outs=None):
+    """(case index, sub index or None, kalman case, its output) for every history of the batch"""
+    res = []
+    for k, c in enumerate(cases):
+        o = outs[k] if outs is not None else None
+        if c["fn"] == "kalman":
+            res.append((k, None, c, o))
+        elif c["fn"] == "multi":
+            for j, s in enumerate(c["subs"]):
+                res.append((k, j, s, o["subs"][j] if (o is not None and not _bad(o)) else None))
+    return res
+
+
 def model(ctx, cases, outs):
     res = [None] * len(cases)
-    mats = _model_mats(ctx)
-    ki = [k for k, c in enumerate(cases) if c["fn"] == "kalman"]
+    flat = _flatten(cases)
+    args = []
+    for k, j, c, _o in flat:
+        H, A = _mats_sx(ctx, c, False)
+        args.append([H, A, _frames_sx(c)])
+    for (k, j, c, _o), a, r in zip(flat, args, _run_abs(ctx, args)):
+        run = r if (isinstance(r, dict) or r == []) else [[st[0] for st in r[0]]]
+        m = {"run": run, "om": a[0], "tm": a[1]}
+        if j is None:
+            res[k] = m
+        else:
+            if res[k] is None:
+                res[k] = {"subs": [None] * len(cases[k]["subs"])}
+            res[k]["subs"][j] = m
     ai = [k for k, c in enumerate(cases) if c["fn"] == "alg"]
-    args = [[mats[cases[k]["model"]][0], mats[cases[k]["model"]][1], _frames_sx(cases[k])] for k in ki]
-    for k, r in zip(ki, _par(ctx, "entry_run", args)):
-        res[k] = {"run": r, "om": mats[cases[k]["model"]][0], "tm": mats[cases[k]["model"]][1]}
     for k, r in zip(ai, ctx.run_model("entry_alg", [_alg_arg(cases[k]) for k in ai])):
         res[k] = r
     return res
@@ -506,15 +880,27 @@ def compare(case, out, m):
         return "implementation raised/crashed: %s" % (str(out)[:300],)
     if case["fn"] == "alg":
         return _cmp_alg(case, out, m)
+    if case["fn"] == "multi":
+        for j, (c, o, mm) in enumerate(zip(case["subs"], out["subs"], m["subs"])):
+            d = _compare_kalman(c, o, mm)
+            if d:
+                return "interleaved history %d: %s" % (j, d)
+        return None
+    return _compare_kalman(case, out, m)
+
+
+def _compare_kalman(case, out, m):
     if isinstance(m["run"], dict) or m["run"] == []:
         return "model rejected the history: %s" % (m["run"],)
     if _qm(out["om"]) != m["om"] or _qm(out["tm"]) != m["tm"]:
         return "model matrices of %s differ from the translated source" % case["model"]
     trace = m["run"][0]
+    if len(trace) != len(out["frames"]):
+        return "number of frames differs"
     for t, (fo, ms) in enumerate(zip(out["frames"], trace)):
         msv, msc, mnv, msn, msi = ms
         if fo["sidx"] != msi:
-            return "frame %d: state_noise_idx impl %s model %s" % (t, fo["sidx"], msi)
+            return "frame %d: state_noise_idx impl %s model %s" % (t, fo["sidx"][:40], msi[:40])
         if len(fo["svec"]) != len(msv) or len(fo["scov"]) != len(msc) or len(fo["nvar"]) != len(mnv) \
                 or len(fo["snoise"]) != len(msn):
             return "frame %d: array lengths differ" % t
@@ -531,9 +917,11 @@ def compare(case, out, m):
 
 def _check_kalman(case, out, spec):
     """the property on the implementation's own output, against the per-feature specification"""
-    om, tm = DOC[case["model"]]
+    om, tm = _case_mats(case)
     if out["om"] != om or out["tm"] != tm:
-        return "%s model matrices are not the documented ones" % case["model"]
+        return "%s model matrices are not the documented ones" % (case.get("custom") or case["model"])
+    if len(out["frames"]) != len(case["frames"]):
+        return "harness error: %d outputs for %d frames" % (len(out["frames"]), len(case["frames"]))
     if isinstance(spec, dict) or spec == []:
         return "specification rejected the history (harness error): %s" % (spec,)
     sl = len(om[0])
@@ -546,6 +934,10 @@ def _check_kalman(case, out, spec):
             return "frame %d: kalman_filter returned its input state object" % t
         if not fo["om_tm_kept"]:
             return "frame %d: model matrices changed" % t
+        if fo.get("other_state_changed"):
+            return "frame %d: the call changed another, independent KalmanState" % t
+        if any(d != "float64" for d in fo.get("dtypes", [])):
+            return "frame %d: result arrays are not float64: %s" % (t, fo["dtypes"])
         if fo["shapes"] != [[n, sl], [n, sl, sl], [n, sl], [len(fo["sidx"]), sl], [len(fo["sidx"])]]:
             return "frame %d: output shapes %s for %d features" % (t, fo["shapes"], n)
         if len(st) != n:
@@ -600,15 +992,29 @@ def _check_kalman(case, out, spec):
 
 def check(ctx, cases, outs):
     res = [None] * len(cases)
-    ki = []
     for k, (c, o) in enumerate(zip(cases, outs)):
         if _bad(o):
             res[k] = "implementation raised/crashed on a valid input: %s" % (str(o)[:300],)
-        elif c["fn"] == "kalman":
-            ki.append(k)
-    args = [list(_doc_mats(cases[k]["model"])) + [_frames_sx(cases[k])] for k in ki]
-    for k, r in zip(ki, _par(ctx, "entry_spec_run", args)):
-        res[k] = _check_kalman(cases[k], outs[k], r)
+    flat = [x for x in _flatten(cases, outs) if res[x[0]] is None]
+    args = []
+    for k, j, c, _o in flat:
+        H, A = _mats_sx(ctx, c, True)
+        args.append([H, A, _frames_sx(c)])
+    specs = []
+    for r in _run_abs(ctx, args):
+        specs.append(r if (isinstance(r, dict) or r == []) else [[st[1] for st in r[0]]])
+    # the abstraction of the batched run IS the per-feature specification (theorem); re-checked at run time
+    # against the separately extracted specification on a sub-sample
+    sub = [i for i in range(len(flat)) if i % 8 == 0 and _cost(args[i]) < 3e5][:40]
+    if sub:
+        for i, r in zip(sub, _par(ctx, "entry_spec_run", [args[i] for i in sub])):
+            if r != specs[i]:
+                raise RuntimeError("extracted entry_spec_run differs from abs(entry_run) on case %d" % flat[i][0])
+    for (k, j, c, o), r in zip(flat, specs):
+        if res[k] is None:
+            d = _check_kalman(c, o, r)
+            if d:
+                res[k] = d if j is None else "interleaved history %d: %s" % (j, d)
     ai = [k for k, c in enumerate(cases) if c["fn"] == "alg" and res[k] is None]
     for k, r in zip(ai, ctx.run_model("entry_alg", [_alg_arg(cases[k]) for k in ai])):
         d = _cmp_alg(cases[k], outs[k], r)
@@ -617,9 +1023,7 @@ def check(ctx, cases, outs):
     return res
 
 
-def nontrivial(case, out):
-    if case["fn"] != "kalman":
-        return False
+def _nontrivial_kalman(case):
     updated = False
     for f in case["frames"]:
         kept = [o for o in f["old"] if o != -1]
@@ -628,6 +1032,12 @@ def nontrivial(case, out):
         if kept:
             updated = True
     return False
+
+
+def nontrivial(case, out):
+    if case["fn"] == "multi":
+        return any(_nontrivial_kalman(s) for s in case["subs"])
+    return case["fn"] == "kalman" and _nontrivial_kalman(case)
 
 
 def kernel_crosscheck(ctx, cases, outs):
@@ -666,18 +1076,35 @@ def search_cases(ctx, rnd):
     return cases + _alg_cases(rng, 20)
 
 
+def _strip(case):
+    c = dict(case)
+    c["frames"] = [{k: v for k, v in f.items() if k != "variant"} for f in case["frames"]]
+    return c
+
+
 def shrink_candidates(case):
+    if case["fn"] == "multi":
+        for s in case["subs"]:
+            yield s
+        n = len(case["subs"]) - len(case["forks"])
+        if n > 1 and case["forks"]:
+            subs = case["subs"][:n]
+            sched = [j for j in case["schedule"] if j < n]
+            yield {"fn": "multi", "subs": subs, "forks": {}, "schedule": sched}
+        return
     if case["fn"] != "kalman":
         return
     fr = case["frames"]
+    if any("variant" in f for f in fr):
+        yield _strip(case)
     # shorter histories (a suffix cannot be cut off the front: indices refer to the previous frame)
     for k in range(len(fr) - 1, 0, -1):
-        yield {"fn": "kalman", "model": case["model"], "frames": fr[:k]}
+        yield dict(case, frames=fr[:k])
     # remove one feature of the last frame
     last = fr[-1]
-    for k in range(len(last["old"])):
+    for k in range(min(len(last["old"]), 40)):
         g = {key: (v[:k] + v[k + 1:] if isinstance(v, list) else v) for key, v in last.items()}
-        yield {"fn": "kalman", "model": case["model"], "frames": fr[:-1] + [g]}
+        yield dict(case, frames=fr[:-1] + [g])
     # remove a feature that is never referred to later (a new one of frame t dropped at t+1)
     for t in range(len(fr) - 1):
         used = set(o for o in fr[t + 1]["old"] if o != -1)
@@ -686,7 +1113,7 @@ def shrink_candidates(case):
                 g = {key: (v[:k] + v[k + 1:] if isinstance(v, list) else v) for key, v in fr[t].items()}
                 nxt = dict(fr[t + 1])
                 nxt["old"] = [o - 1 if o > k else o for o in nxt["old"]]
-                yield {"fn": "kalman", "model": case["model"], "frames": fr[:t] + [g, nxt] + fr[t + 2:]}
+                yield dict(case, frames=fr[:t] + [g, nxt] + fr[t + 2:])
                 break
 
 
@@ -698,7 +1125,8 @@ MANIFEST = {
         "per-feature textbook predict/update of each feature's own previous tuple and own correction history "
         "(kalman_refines, by induction over frames), new features start as specified, the noise variance is the "
         "variance of the feature's own corrections, a feature's result is independent of index order and of the other "
-        "features, and the cofactor inverse is a two-sided inverse for sizes 1 and 2.  The model is tied to the code "
+        "features, the cofactor inverse is a two-sided inverse for sizes 1 to 4, the batched product is associative and "
+        "the gain solves K S = P H^T for every obs_len on which inv_n inverts S (unconditionally for 1..4).  The model is tied to the code "
         "by replaying random histories through both (all five state arrays after every frame; indices exact, "
         "rationals against floats at relative tolerance 1e-9) and the per-feature specification is evaluated on "
         "the implementation's own output; the input state is compared byte for byte around every call."),
